@@ -116,6 +116,7 @@ def execute(case):
     log = EventLog(case.get('run_seed'))
     p = case['params']
     viol, probes, sigs, traces = [], {}, [], []
+    orders = []
     faults = {}
     steps = 0
     sim_time = 0.0
@@ -177,6 +178,8 @@ def execute(case):
             sim_time += res.get('sim_time', 0.0)
             traces.append(res.get('schedule_trace', []))
             order = (res.get('pool_orders') or [[]])[0] if res.get('pool_orders') else []
+            if order:
+                orders.append(f'{len(order)}:' + ','.join(map(str, order[:40])))
             njobs = len(res.get('jobs', []))
             if mode.get('real_pool'):
                 probe('real_pool_crosscheck')
@@ -265,7 +268,7 @@ def execute(case):
                     V('no_rejects-differs-from-default-minus-rejected', base, only_default=sorted({k[0] for k in m})[:6], only_no_rejects=sorted({k[0] for k in e})[:6], kinds=sorted({str(byid2[i].get('defect')) for i in ({k[0] for k in m} | {k[0] for k in e}) if i in byid2}),
                       method=p['method'])
     return {'violations': viol, 'digest': log.digest(), 'probes': probes, 'faults': faults, 'evals': len(case['modes']), 'sigs': sigs,
-            'steps': steps, 'sim_time': sim_time, 'nontrivial': any(s[1] for s in sigs), 'schedule_traces': traces}
+            'steps': steps, 'sim_time': sim_time, 'nontrivial': any(s[1] for s in sigs), 'schedule_traces': traces, 'sets': {'delivery_orders': orders}}
 
 
 def make_explicit(case, out):
